@@ -744,7 +744,7 @@ func genC08(rng *rand.Rand, seed uint64, tier string) *Script {
 	s.Node = NodeOpts{Pruning: "nothing", MinGasPrices: pick(rng, "", "1wei"), IAVLCache: pick(rng, 0, -1)}
 	// app.toml query-gas-limit: the Cosmos gas meter of query contexts is finite on some nodes; EVM simulation does not
 	// charge it (zero gas configuration), so its answers must not depend on it
-	s.Node.QueryGasLimit = pick(rng, uint64(0), 0, 0, 300_000, 2_000_000)
+	s.Node.QueryGasLimit = pick(rng, uint64(0), 0, 0, 40_000, 300_000, 2_000_000)
 	traffic := g.Wallets - 2 // the last two wallets are reserved: observer (never sends) and predictor
 	obs, pred := g.Wallets-2, g.Wallets-1
 	tg := g
